@@ -1,7 +1,8 @@
 (* C06 — partial evaluation is sound for every completion of the unknowns.
-   partial / partial_policy = model of internal/eval/partial.go (Impl/Partial.v).  Proofs: Proofs/PartialProofs.v. *)
+   partial / partial_policy = model of internal/eval/partial.go (Impl/Partial.v).  Proofs: Proofs/PartialProofs.v (unknowns),
+   Proofs/PartialIgnoreProofs.v (ignored parts). *)
 From Coq Require Import List Bool.
-From Cedar Require Import Lang.Value Lang.Expr Impl.Eval Impl.Partial Proofs.PartialProofs.
+From Cedar Require Import Lang.Value Lang.Expr Impl.Eval Impl.Partial Proofs.PartialProofs Proofs.PartialIgnoreProofs.
 
 (* expressions: a fully evaluated result is the value of the expression under EVERY completion (modulo substituting the unknowns
    it still contains); a residual or a kept original evaluates like the original; a reported error means the original fails;
@@ -27,5 +28,53 @@ Theorem C06_partial_policy_sound : forall en s p,
   end.
 Proof. exact partial_policy_sound. Qed.
 
+(* IGNORED PARTS.  `fills okf v v'`: v' is v with every ignore marker replaced by some value (different occurrences may get different
+   values); fills_env: the same for the four request parts, same store.  If a PERMIT policy is satisfied for SOME value of the ignored parts
+   (and the given completion s of the unknowns), the partial evaluator keeps it and its residual is satisfied in that same completed
+   environment: ignoring only ever widens what permits allow.  No hypothesis on the filler values. *)
+Theorem C06_ignore_widens_permits : forall okf en s p en',
+  store_clean en -> env_wf en -> policy_clean p -> p_effect p = true ->
+  fills_env okf (subst_env s en) en' -> sat en' p = true ->
+  exists r, partial_policy en p = Some r /\ sat en' r = true.
+Proof. exact partial_policy_ignore_widens_gen. Qed.
+
+(* contrapositive: a permit the partial evaluator DROPS is unsatisfied for every value of the ignored parts and every completion *)
+Theorem C06_ignore_dropped_permit_never_satisfied : forall okf en s p en',
+  store_clean en -> env_wf en -> policy_clean p -> p_effect p = true ->
+  fills_env okf (subst_env s en) en' -> partial_policy en p = None -> sat en' p = false.
+Proof. exact partial_policy_ignore_dropped. Qed.
+
+(* forbid policies: a kept forbid is satisfied whenever the original is (a forbid is never lost), and exactly when the original is unless
+   principal, action or resource is itself ignored (then its scope clause becomes `all`: the forbid applies MORE often - the model and the
+   code agree on that; Proofs/PartialIgnoreProofs.v forbid_scope_counterexample) *)
+Theorem C06_ignore_forbid_kept : forall okf en s p en' r,
+  store_clean en -> env_wf en -> policy_clean p -> p_effect p = false ->
+  fills_env okf (subst_env s en) en' -> partial_policy en p = Some r ->
+  (sat en' p = true -> sat en' r = true) /\
+  (is_ignore (e_principal en) = false -> is_ignore (e_action en) = false -> is_ignore (e_resource en) = false -> sat en' r = sat en' p).
+Proof. exact forbid_ignore_kept_sound. Qed.
+
+(* expressions under ignored parts: whatever partial evaluation still reports about an expression is true of every filling *)
+Theorem C06_partial_expr_sound_with_ignore : forall okf en s e en',
+  store_clean en -> env_wf en -> expr_clean e -> fills_env okf (subst_env s en) en' ->
+  match partial en e with
+  | PNode (ELit v) => exists v', eval en' e = Ok v' /\ fills okf (subst_val s v) v'
+  | PNode n => req (eval en' n) (eval en' e)
+  | PVar n => req (eval en' n) (eval en' e)
+  | PErr _ => exists k', eval en' e = Err k'
+  | PIgnore => True
+  end.
+Proof. exact partial_expr_ignore. Qed.
+
+(* the hypotheses are satisfiable, and the widening is strict (the converse fails) *)
+Definition C06_ignore_nonvacuous := ig_instance.
+Definition C06_ignore_widening_is_strict := widening_strict.
+
+Print Assumptions C06_ignore_widens_permits.
+Print Assumptions C06_ignore_dropped_permit_never_satisfied.
+Print Assumptions C06_ignore_forbid_kept.
+Print Assumptions C06_partial_expr_sound_with_ignore.
+Print Assumptions C06_ignore_nonvacuous.
+Print Assumptions C06_ignore_widening_is_strict.
 Print Assumptions C06_partial_expr_sound.
 Print Assumptions C06_partial_policy_sound.
